@@ -21,6 +21,7 @@ import (
 	"encoding/json"
 	"fmt"
 	"regexp"
+	"strconv"
 	"strings"
 
 	"github.com/antlr4-go/antlr/v4"
@@ -271,13 +272,13 @@ func (l *sequenceListener) ExitWildcardAS(c *sequence.WildcardASContext) {
 }
 
 func (l *sequenceListener) ExitLegacyAS(c *sequence.LegacyASContext) {
-	re := c.GetText()[1:]
+	re := canonicalAS(c.GetText()[1:])
 	//fmt.Printf("LegacyAS: %s RE: %s\n", c.GetText(), re)
 	l.push(re)
 }
 
 func (l *sequenceListener) ExitAS(c *sequence.ASContext) {
-	re := c.GetText()[1:]
+	re := canonicalAS(c.GetText()[1:])
 	//fmt.Printf("AS: %s RE: %s\n", c.GetText(), re)
 	l.push(re)
 }
@@ -292,6 +293,23 @@ func (l *sequenceListener) ExitIFace(c *sequence.IFaceContext) {
 	re := c.GetText()
 	//fmt.Printf("IFace: %s RE: %s\n", c.GetText(), re)
 	l.push(re)
+}
+
+// canonicalAS returns the AS number in the spelling used by addr.AS.String(), which is what
+// the sequence regexp is matched against. ASes are compared by value: upper-case hex digits, a
+// hex spelling of a BGP AS number or a decimal spelling of a larger AS number are equivalent to
+// the canonical spelling. Text that is not a valid AS number is left unchanged.
+func canonicalAS(s string) string {
+	if strings.Contains(s, ":") {
+		if as, err := addr.ParseAS(s); err == nil {
+			return as.String()
+		}
+		return s
+	}
+	if v, err := strconv.ParseUint(s, 10, 64); err == nil && addr.AS(v) <= addr.MaxAS {
+		return addr.AS(v).String()
+	}
+	return s
 }
 
 func hop(ia addr.IA, ingress, egress iface.ID) string {
